@@ -13,6 +13,7 @@ import json
 import re
 from .. import core
 from . import c19_subsystems
+from . import _c19_shutdown      # extension U: worker start-up / shutdown protocol (micro-step machine)
 
 LEVEL = "partial"
 EXPLANATION = ("Coq theorems for every sequence of initialize/finalize/use operations about the registration and teardown "
@@ -284,6 +285,7 @@ def run(ctx):
                         "mallinfo2().uordblks includes libc-internal bookkeeping (it grows by a few KB per cycle even for an empty workload); only gross growth is flagged, the interposed ledger is the exact measure"]
     ctx.notes.append("listed exceptions (rows that never register a cleanup: one-time allocation surviving finalize): " +
                      "; ".join("%s %s" % (rows[k]["tu"], rows[k]["resource"]) for k in bad if not rows[k]["registers"]))
+    _c19_shutdown.run_shutdown(ctx, ctx.tier == "quick")      # extension U (own theorems, harness, verdicts)
     broken_proof = not pr["ok"] or not okx or model_stale
     broken = broken_proof or bool(mismatches)
     if not broken:
